@@ -126,4 +126,66 @@ theorem value_completions_reattach_prefix (t : Ty) (pfx m : Bytes) :
 theorem sorting_keeps_candidates (y : Bytes × Bytes) (l : List (Bytes × Bytes)) :
     y ∈ l.foldr insertItem [] ↔ y ∈ l := foldr_insertItem_mem y l
 
+/-! ### Where the parser passes words through (D15) -/
+
+/-- **The terminator ends the walk**: under PassDoubleDash a `--` among the already-typed words
+    stops the walk with `terminated`, whatever follows, and in the command context reached so far. -/
+theorem terminator_terminates (fuel : Nat) (s : CS) (opt : Option ORef) (w : Bytes) (rest : List Bytes)
+    (hargs : s.args = B "--" :: w :: rest) (hp : s.P.opts.passDoubleDash = true) :
+    (compWalk (fuel + 1) s opt).2.2 = true ∧ (compWalk (fuel + 1) s opt).2.1 = none ∧
+    (compWalk (fuel + 1) s opt).1.cmd = s.cmd := by
+  unfold compWalk
+  simp [hargs, hp, CS.skipPositional]
+
+/-- **After the terminator nothing but positional values**: no option name and no command is
+    offered for the last word; a pending positional argument's type still completes its value. -/
+theorem terminated_offers_only_positional_values (s : CS) (last : Bytes) :
+    completeLast s none true last =
+      match s.positional with
+      | p :: _ => completeValue (s.P.argAt p).ty [] last
+      | [] => [] := by
+  unfold completeLast
+  simp
+  cases s.positional <;> rfl
+
+/-- **No command after a remaining argument**: once a word has gone to the remaining arguments
+    the parser recognises no more commands (`len(s.retargs) == 0` in `parseNonOption`), and
+    completion offers none. -/
+theorem no_commands_after_remaining_argument (s : CS) (t : Bool) (last : Bytes)
+    (hrest : s.restSeen = true) (hpos : s.positional = []) (hlast : argumentStartsOption last = false) :
+    completeLast s none t last = [] := by
+  unfold completeLast
+  simp [hrest, hpos, hlast]
+
+/-- a passed-through word never changes the command context -/
+theorem passThrough_keeps_context (s : CS) : s.passThrough.cmd = s.cmd ∧ s.passThrough.P = s.P := by
+  unfold CS.passThrough
+  split
+  · split <;> exact ⟨rfl, rfl⟩
+  · exact ⟨rfl, rfl⟩
+
+/-- **A command word after a remaining argument is an argument**: the walk does not switch to the
+    subcommand's context (the parser would not either). -/
+theorem command_word_after_rest_is_an_argument (fuel : Nat) (s : CS) (opt : Option ORef) (arg w : Bytes) (rest : List Bytes)
+    (hargs : s.args = arg :: w :: rest) (hno : argumentIsOption arg = false)
+    (hdd : (s.P.opts.passDoubleDash && arg = B "--") = false)
+    (hpa : s.P.opts.passAfterNonOption = false) (hrest : s.restSeen = true) :
+    compWalk (fuel + 1) s opt = compWalk fuel ({ s with args := w :: rest } : CS).passThrough none := by
+  conv => lhs; unfold compWalk
+  simp only [hargs]
+  have hdd' : (s.P.opts.passDoubleDash = true ∧ arg = B "--") ↔ False := by
+    simpa [Bool.and_eq_false_iff] using hdd
+  simp [hno, hpa, hrest, hdd']
+  cases s.P.lookupCmd s.cmd arg <;> rfl
+
+/-- the parser's side of the same rule: with a remaining argument already there and no positional
+    pending, a word that names a subcommand is added to the remaining arguments and the command
+    context stays -/
+theorem parser_command_word_after_rest (E : Env) (ps : PS)
+    (hpos : ps.positional = []) (hret : ps.retargs ≠ []) :
+    (parseNonOption E ps).1.cmd = ps.cmd ∧ (parseNonOption E ps).1.retargs = ps.retargs ++ [ps.arg] ∧
+    (parseNonOption E ps).2 = false := by
+  unfold parseNonOption
+  simp [hpos, hret, PS.addArgs]
+
 end GoFlags.C18
